@@ -394,6 +394,32 @@ pub fn os(b: &[u8]) -> std::ffi::OsString {
     std::ffi::OsString::from_vec(b.to_vec())
 }
 
+/// inverse of `show_bytes`: the text `\xHH` (two upper-case hex digits) stands for the raw byte
+pub fn enc_escapes(s: &str) -> std::ffi::OsString {
+    let b = s.as_bytes();
+    let mut out = Vec::with_capacity(b.len());
+    let mut i = 0;
+    let hex = |c: u8| -> Option<u8> {
+        match c {
+            b'0'..=b'9' => Some(c - b'0'),
+            b'A'..=b'F' => Some(c - b'A' + 10),
+            _ => None,
+        }
+    };
+    while i < b.len() {
+        if b[i] == b'\\' && i + 3 < b.len() + 0 && b[i + 1] == b'x' {
+            if let (Some(h), Some(l)) = (hex(b[i + 2]), hex(b[i + 3])) {
+                out.push(h * 16 + l);
+                i += 4;
+                continue;
+            }
+        }
+        out.push(b[i]);
+        i += 1;
+    }
+    os(&out)
+}
+
 pub fn os_bytes(s: &std::ffi::OsStr) -> &[u8] {
     use std::os::unix::ffi::OsStrExt;
     s.as_bytes()
